@@ -4,7 +4,9 @@ import (
 	"bytes"
 	"fmt"
 	"sync"
+	"sync/atomic"
 	"testing"
+	"time"
 
 	vk "github.com/cbeuw/Cloak/internal/verifkit"
 	"pgregory.net/rapid"
@@ -67,6 +69,7 @@ func c02ConcRun(c c02Conc) (vk.Result, error) {
 	}
 	// reader
 	var got []byte
+	var gotLen atomic.Int64
 	rdone := make(chan struct{})
 	go func() {
 		defer close(rdone)
@@ -74,6 +77,7 @@ func c02ConcRun(c c02Conc) (vk.Result, error) {
 		for len(got) < len(want) {
 			m, err := sb.Read(buf)
 			got = append(got, buf[:m]...)
+			gotLen.Store(int64(len(got)))
 			if err != nil {
 				return
 			}
@@ -109,7 +113,32 @@ func c02ConcRun(c c02Conc) (vk.Result, error) {
 	if !c.Closing {
 		sb.Close()
 	}
-	<-rdone
+	// every frame has been delivered exactly once and every Write has returned: the reader must come to its end. It is
+	// declared stuck only when nothing was handed over for 2 s AND it is parked in the same place in two goroutine
+	// dumps with nothing else inside the code under test able to run
+	last, lastChange, begin := int64(-1), time.Now(), time.Now()
+waitReader:
+	for {
+		select {
+		case <-rdone:
+			break waitReader
+		case <-time.After(20 * time.Millisecond):
+		}
+		if g := gotLen.Load(); g != last {
+			last, lastChange = g, time.Now()
+			continue
+		}
+		if time.Since(lastChange) > 2*time.Second {
+			if stuck, where := vk.StuckForGood(500 * time.Millisecond); stuck && gotLen.Load() == last {
+				go sb.Close() // release the reader
+				return res, vk.ViolateSig("tail-never-handed-over", "every one of the %d frames was delivered exactly once (backlog of %d behind a gap, gap filler and %d followers on %d connections, closing frame: %v), but the reader was handed only %d of %d bytes and waits for ever (%s)", n, c.Backlog, c.Tail, c.Conns, c.Closing, last, len(want), where)
+			}
+			lastChange = time.Now()
+		}
+		if time.Since(begin) > 5*time.Minute {
+			return res, fmt.Errorf("harness: the reader is still going after 5 minutes and is not provably stuck")
+		}
+	}
 	if firstErr != nil {
 		return res, firstErr
 	}
